@@ -495,6 +495,40 @@ def runLive20 (kv : List (String × String)) : IO Res := do
     | _ => pure ()
   return .ok tags (some s!"{lc.threads.length}/{principal.isSome}/{tags.eraseDups}")
 
+/-- C12 on a real dump: every captured stack of a sanitizing dump equals the model's sanitisation of the
+    target's bytes (the call site: which bytes, which stack pointer, which offset, which mapping list) -/
+def runLive12 (kv : List (String × String)) : IO Res := do
+  let lc ← match ← loadLive kv with
+    | .ok l => pure l
+    | .error e => return .bad e
+  let mut tags := cfgTags lc.cfg
+  if lc.result != "ok" then return .ok ("dump.failed" :: tags)
+  if !lc.cfg.sanitize then return .ok ("nosanitize" :: tags)
+  let ms := aggregate none lc.maps
+  for t in lc.threads do
+    let some exp := lc.thr.find? (fun e => e.tid == t.tid) | continue
+    if exp.spin || t.stackSize == 0 then continue
+    let crashThread := lc.cfg.crash.isSome && t.tid == lc.cfg.blamed
+    let sp := if crashThread then greg lc.cfg.gregs REG_RSP else exp.rsp
+    -- the target's bytes of the captured range
+    let raw : List (Option UInt8) := (List.range t.stackSize).map (fun k => memAt lc.mem (t.stackStart + k))
+    if raw.any Option.isNone then
+      tags := "stack.uncovered" :: tags
+      continue
+    let inp : Bytes := raw.map (·.getD 0)
+    let some got := lc.img.bytes t.stackRva t.stackSize | return .propfail "stack bytes outside the image" tags
+    if sp < t.stackStart then continue
+    match sanitize ms inp sp (sp - t.stackStart) with
+    | .ok want =>
+      if got != want then
+        let k := ((got.zip want).findIdx? (fun (a, b) => a != b)).getD 0
+        return .mismatch s!"sanitized stack of thread {t.tid}: first difference at +{k} (sp offset {sp - t.stackStart}): image {got.getD k 0}, model {want.getD k 0}, target {inp.getD k 0}" tags
+      if want != inp then tags := "stack.changed" :: tags
+      if want.any (· == 0x0d) then tags := "stack.defaced" :: tags
+      tags := "stack.sanitized" :: tags
+    | _ => tags := "model.panic" :: tags
+  return .ok tags (some s!"{lc.threads.length}/{tags.eraseDups}")
+
 /-- which stream an object of the image belongs to (what its directory entry, once visible, promises) -/
 def objStream (kind : String) : Option Nat :=
   if kind.startsWith "stack:" || kind.startsWith "context:" then some ST_THREAD_LIST
